@@ -510,8 +510,15 @@ class DataboxWorld(World):
         else:
             tgt_names = [f"r{self.seq}_{i}" for i in range(k)]
             tgt = {"k": "list", "v": tgt_names}
-        # target names colliding with existing names are an unspecified corner (sequential rename): avoided
-        if set(tgt_names) & set(names) or len(set(tgt_names)) != len(tgt_names):
+        # a target that is also a SOURCE (chains, swaps) depends on whether the rename is sequential or simultaneous:
+        # unspecified, avoided.  A target that collides with an existing name which is NOT being renamed means the
+        # same under both readings (the target ends up holding the source's item): generated below.
+        if rng.random() < 0.3 and len(names) > k:
+            victims = [n for n in names if n not in src]
+            tgt_names = rng.sample(victims, min(k, len(victims))) + [f"r{self.seq}_{i}" for i in range(k)]
+            tgt_names = tgt_names[:k]
+            tgt = {"k": "list", "v": tgt_names}
+        if set(tgt_names) & set(src) or len(set(tgt_names)) != len(tgt_names):
             return None
         source = {"k": "list", "v": src + (["missing_zz"] if rng.random() < 0.2 and tgt["k"] == "func" else [])}
         return {"op": "rename", "args": {"box": b, "source": source, "target": tgt}}
@@ -709,7 +716,15 @@ class DataboxWorld(World):
         d = self._pick_slate(rng)
         if d is None:
             return None
-        return {"op": "slate_to_box", "out": [self._name()], "args": {"d": d}}
+        r = rng.random()
+        if r < 0.5:
+            return {"op": "slate_to_box", "out": [self._name()], "args": {"d": d, "target": None}}
+        if r < 0.75:
+            return {"op": "slate_to_box", "out": [self._name()], "args": {"d": d, "target": "empty"}}
+        b = self._own_box(rng, actor)
+        if b is None:
+            return None
+        return {"op": "slate_to_box", "args": {"d": d, "target": b}}
 
     def _gen_slate_rescale(self, actor, rng, val, flt):
         d = self._pick_slate(rng)
@@ -980,12 +995,18 @@ class DataboxWorld(World):
         context = list(self.bind[h])
         src, tgt = self._resolve_targets(a["source"], a["target"], context)
         pred = f"target:{a['target']['k']}"
-        if set(tgt) & (set(context) - set(src)) or len(set(tgt)) != len(tgt) or set(tgt) & set(src):
+        if len(set(tgt)) != len(tgt) or set(tgt) & set(src):
             return "skipped"
+        collide = set(tgt) & (set(context) - set(src))
+        if collide:
+            pred += ",target_replaces_existing_item"
+            self.probes["rename_onto_existing_name"] += 1
         status, r, _ = self._run("rename", pred, lambda: box.rename(self.selection_real(a["source"]), self.target_real(a["target"])))
         self._crash_guard("rename", pred, status, r)
         ren = dict(zip(src, tgt))
-        want = {ren.get(n, n): self._value_exp(x, fresh=False) for n, x in self.bind[h].items()}
+        want = {n: self._value_exp(x, fresh=False) for n, x in self.bind[h].items() if n not in collide and n not in ren}
+        for s_, t_ in ren.items():
+            want[t_] = self._value_exp(self.bind[h][s_], fresh=False)
         self._expect_box("rename", pred, box, want, what="receiver")
         self._check_heap("rename", pred)
         self._check_bindings_unchanged("rename", pred, exclude=(h,))
@@ -1589,15 +1610,35 @@ class DataboxWorld(World):
     def _do_slate_to_box(self, step, a):
         d = a["d"]
         real, exp, _ = self.slates[d]
-        status, r, _ = self._run("slate_to_box", "", lambda: real.to_databox())
-        self._crash_guard("slate_to_box", "", status, r)
-        self._expect_box("slate_to_box", "", r, self._slate_want(exp), what="round-tripped")
+        target = a.get("target")
+        want = self._slate_want(exp)
+        if target is None:
+            status, r, _ = self._run("slate_to_box", "", lambda: real.to_databox())
+            self._crash_guard("slate_to_box", "", status, r)
+            recv = None
+        else:
+            # the caller's databox (a new, still empty one or an existing one) is filled in place and returned
+            tbox = ir.Databox() if target == "empty" else self.boxes[target]
+            opname = "slate_to_box." + ("empty_target" if target == "empty" else "existing_target")
+            status, r, _ = self._run(opname, "", lambda: real.to_databox(target_db=tbox))
+            self._crash_guard(opname, "", status, r)
+            if r is not tbox:
+                raise Violation("refine", opname, "", "", "to_databox(target_db=box) returned another object than the databox it was given")
+            if target != "empty":
+                merged = {n: self._value_exp(x, fresh=False) for n, x in self.bind[target].items()}
+                merged.update(want)
+                want = merged
+            recv = None if target == "empty" else target
+            r = tbox
+            self.probes["slate_to_box_into_target"] += 1
+        self._expect_box("slate_to_box", "", r, want, what="round-tripped")
         self._check_heap("slate_to_box", "")
-        self._check_bindings_unchanged("slate_to_box", "")
+        self._check_bindings_unchanged("slate_to_box", "", exclude=(recv,) if recv else ())
         self._check_slates("slate_to_box")
-        out = step["out"][0]
-        self.boxes[out] = r
-        self.owner[out] = step.get("actor", "a0")
+        if recv is None:
+            out = step["out"][0]
+            self.boxes[out] = r
+            self.owner[out] = step.get("actor", "a0")
         self._rederive()
         self.probes["databox_taken_from_live_dataslate"] += 1
         return "ok"
